@@ -641,10 +641,11 @@ theorem fresh_selected (o : Opts) (stores : List Store) (r : Region) (st : Strat
       unfold Store.label
       split
       · next kv hkv =>
-        have := List.find?_some hkv
+        have hk : foldEq kv.1 "specialUse" = true :=
+          List.find?_some (p := fun kv : String × String => foldEq kv.1 "specialUse") hkv
         have hmem := List.mem_of_find?_eq_some hkv
-        simp only [beq_iff_eq] at this
-        exact absurd this (h10 kv hmem)
+        have := h10 kv hmem
+        simp [hk] at this
       · rfl
     simp [specialUseTarget, specialUseConstraint, Constraint.matches, this]
   have hisoT : (if !st.labels.isEmpty && st.level != "" then isolationTarget st.labels st.level co s else true) = true := by
